@@ -306,10 +306,37 @@ func errClass(err error) string {
 	return "error"
 }
 
+// callerContext is the gRPC context of a request: "" a patient caller; "cancelled": the caller gave
+// up before the request is handled; "during": it cancels about a millisecond into the request
+// (while the transition runs, waits for the mutex or is held by a gated probe); "deadline": its
+// deadline expires three milliseconds into it.  What the core does to the environment must not
+// depend on it.
+func callerContext(kind string) (context.Context, context.CancelFunc) {
+	switch kind {
+	case "cancelled":
+		ctx, cancel := context.WithCancel(context.Background())
+		cancel()
+		return ctx, cancel
+	case "during":
+		ctx, cancel := context.WithCancel(context.Background())
+		time.AfterFunc(time.Millisecond, cancel)
+		return ctx, cancel
+	case "deadline":
+		return context.WithTimeout(context.Background(), 3*time.Millisecond)
+	}
+	return context.Background(), func() {}
+}
+
 func (w *world) control(id string, optype int32, user string) reply {
+	return w.controlCtx(id, optype, user, "")
+}
+
+func (w *world) controlCtx(id string, optype int32, user, ctxKind string) reply {
 	req := &pb.ControlEnvironmentRequest{Id: id, Type: pb.ControlEnvironmentRequest_Optype(optype),
 		RequestUser: &evpb.User{Name: user}}
-	r, err := w.sim.Rpc.ControlEnvironment(context.Background(), req)
+	ctx, cancel := callerContext(ctxKind)
+	defer cancel()
+	r, err := w.sim.Rpc.ControlEnvironment(ctx, req)
 	out := reply{Err: errClass(err)}
 	if r != nil {
 		out.HasReply = true
@@ -318,10 +345,12 @@ func (w *world) control(id string, optype int32, user string) reply {
 	return out
 }
 
-func (w *world) destroy(id string, force, allowRunning, keep bool, user string) reply {
+func (w *world) destroy(id string, force, allowRunning, keep bool, user, ctxKind string) reply {
 	req := &pb.DestroyEnvironmentRequest{Id: id, Force: force, AllowInRunningState: allowRunning, KeepTasks: keep,
 		RequestUser: &evpb.User{Name: user}}
-	_, err := w.sim.Rpc.DestroyEnvironment(context.Background(), req)
+	ctx, cancel := callerContext(ctxKind)
+	defer cancel()
+	_, err := w.sim.Rpc.DestroyEnvironment(ctx, req)
 	return reply{Err: errClass(err)}
 }
 
